@@ -297,7 +297,8 @@ def run(V, tier, want, cfg="Layouts_cli.cfg"):
                 if len(refs) != len(set(refs)):
                     V.violation(e5, "textDocument/references from an overriding fixture's name lists a location twice")
                 want_refs = by_def.get(me, set())
-                if set(refs) != want_refs:
+                # compared by (file, line): the start column of a STRING usage is the literal's, not the content's (C15's finding)
+                if sorted((a, b) for a, b, _ in refs) != sorted((a, b) for a, b, _ in want_refs):
                     V.violation(dict(e5, expected=sorted(want_refs)),
                                 "textDocument/references from an overriding fixture's NAME are not the usages that navigate to it")
         if "c05" in want:
